@@ -84,6 +84,10 @@ def lang_scenarios(reps, env):
              ('verify', ['verify', '-t', 'atxt'], APPLESOFT), ('asm', ['asm'], MERLIN),
              ('verify with diagnostics', ['verify', '-t', 'atxt'], b'10 COUNT = 1: COUNTER = 2: COLD = 3: COT = 4\n20 HEIGHT = HEN + HEX1: PRINT COUNT,COUNTER,COLD\n30 GOTO 99\n'),
              ('verify merlin with diagnostics', ['verify', '-t', 'mtxt'], b' ORG $300\nA LDA B\nA STA C\n JMP NOWHERE\n'),
+             # macros that depend on each other (a self-calling one among them), macro locals defined twice: outcome and message must not vary
+             ('verify merlin macro dependencies', ['verify', '-t', 'mtxt'], b'C1       MAC\n         NOP\n         C1\n         <<<\nXX       MAC\n         INX\n         <<<\nSS       MAC\n         C1\n         XX\n         <<<\n         SS\n'),
+             ('verify merlin macro dependencies 2', ['verify', '-t', 'mtxt'], b'C1       MAC\n         NOP\n         C1\n         <<<\nXX       MAC\n         LDA UNDEF\n         <<<\nSS       MAC\n         C1\n         XX\n         <<<\n         SS\n'),
+             ('verify merlin duplicate macro locals', ['verify', '-t', 'mtxt'], b'M1   MAC\nALPHA    NOP\nBETA    NOP\nGAMMA   NOP\nDELTA   NOP\n     <<<\nM2   MAC\nALPHA    NOP\nBETA    NOP\nGAMMA   NOP\nDELTA   NOP\n     M1\n     <<<\n     M2\n'),
              ('dasm', ['dasm', '-p', '6502', '--mx', '11', '-o', '768'], bytes([0xa9, 0, 0x8d, 0, 0xc0, 0x4c, 0, 3, 0x20, 0x58, 0xfc, 0x60] * 8)),
              ('pack rec', ['pack', '-t', 'rec', '-o', 'prodos', '-f', 'R'], records_json(12)),
              ('pack rec straddling prodos', ['pack', '-t', 'rec', '-o', 'prodos', '-f', 'R'], records_json(14, 100)),
